@@ -2196,6 +2196,29 @@ func nilToAnyRule(c *Ctx, r *R) {
 		r.check(tf != nil && (tf.String() == "TypeSlice" || tf.String() == "t"), "nil conversion to []any", c.Pos(fd), "nil converts to the typed nil of the target type",
 			"Value.convert turns nil into a nil slice of another element type ("+p.Ret[0].String()+") when the target is the bare slice type []any: `xs := append([]any(nil), src...); xs = append(xs, 1000)` stores 232, a byte")
 	}
+	// []T(nil), Vec(nil): nil converted to a composite slice type is the nil slice of *that*
+	// type.  The delegation to the bare-slice conversion (for []byte(s)) forgets the element
+	// type, so it is taken only where nil has been excluded.
+	n := 0
+	for _, p := range c.pathsOf("Value.convert") {
+		cs := condStrings(p)
+		if !strings.Contains(cs, "(t != TypeSlice)") || len(p.Ret) != 1 {
+			continue
+		}
+		if strings.Contains(cs, "(v.t == TypeNil)") {
+			n++
+			tf := litField(p.Ret[0], "t")
+			r.check(tf != nil && tf.String() == "t", "nil conversion to []T", c.Pos(fd), "nil converts to the typed nil of the target type",
+				"Value.convert turns nil into "+p.Ret[0].String()+" for a composite target type: []float64(nil) is not the nil slice of float64")
+		}
+		if rt := p.Ret[0]; rt.Op == "call" && strings.Contains(rt.String(), "convert(") && strings.Contains(rt.String(), "TypeSlice") {
+			r.check(strings.Contains(cs, "(v.t != TypeNil)"), "nil conversion to []T", c.Pos(fd), "the bare-slice delegation is taken only for non-nil operands",
+				"Value.convert hands nil to the bare-slice conversion for a composite slice type ("+cs+"): `[]byte(nil)` becomes the nil []any and forgets its element type — `b := append([]byte(nil), 300)` keeps 300")
+		}
+	}
+	if n == 0 {
+		r.fail("nil conversion to []T", c.Pos(fd), "Value.convert has no path that converts nil to the typed nil of a composite target type: `[]byte(nil)` becomes the nil []any and forgets its element type")
+	}
 }
 
 // REP-MAPIDENT: two keys are the same key exactly when Go's == says so.  Every key type that
